@@ -59,8 +59,9 @@ TECHNIQUE = ("Lean 4 theorems about an executable model of signac/import_export.
              "member lists, the three import analysers, schema strings) + differential correspondence of the "
              "compiled model against real export_to / import_from round trips + a model-independent round-trip oracle")
 LEVEL_TEXT = ("Proved in Lean for all projects, all path lists and every hash function (state point -> id): "
-              "(1) valid_paths_roundtrip_{zip,tar,dir}_partial: if the export paths are injective and component-wise "
-              "prefix-free, importing the exported member list into an empty project with the zip, the tar and the "
+              "(1) valid_paths_roundtrip_tar (unconditional), valid_paths_roundtrip_multi (two or more jobs, every target), "
+              "valid_paths_roundtrip_subdirs, valid_paths_roundtrip_partial and the older _{zip,tar,dir}_partial: if the export "
+              "paths are injective and component-wise prefix-free, importing the exported member list into an empty project with the zip, the tar and the "
               "directory analyser (for every admissible os.walk order) raises nothing and gives back exactly the exported "
               "jobs - same ids, same state point, document and file members, no id twice; (2) export_checks_sound / "
               "export_accepts_sound: whatever passes the uniqueness check and the two-pass leaf/node check is injective and "
@@ -74,9 +75,11 @@ LEVEL_TEXT = ("Proved in Lean for all projects, all path lists and every hash fu
               "one-pass leaf/node check and the string-prefix zip test of the pinned tree are wrong. The executable model is "
               "compared with real export_to / import_from on every generated round trip (paths, checks, member lists read "
               "back with zipfile/tarfile/os.walk, re-imported project, schema parser).")
-LEVEL_NOTE = ("The three round-trip theorems and import_no_overwrite_* carry the extra hypothesis NoNestedSp (no job holds a "
-              "nested file named signac_statepoint.json), hence the _partial names; the full statement is kept as "
-              "valid_paths_roundtrip_full : Prop, believed true, not proved (it needs the parents-first visiting order). "
+LEVEL_NOTE = ("State-point files nested inside a job (a copied job directory) are covered: the proofs use that every analyser "
+              "visits parents first and never looks below a recognised job. Remaining hypotheses: zip needs NoEmptyDirs; a single "
+              "job exported to the target root needs TopNamed (no path component '' at the top - the counter-example "
+              "valid_paths_roundtrip_nested_false is a directory literally named '', a model artefact); import_no_overwrite_* "
+              "still carry NoNestedSp. "
               "The zip theorems additionally need NoEmptyDirs: zip export does not store empty sub-directories (known "
               "finding F-16e, current behaviour modelled, valid_paths_roundtrip_full_false proves the full statement false "
               "from that witness; carve-out = zip target AND a job with an empty sub-directory AND only such directories "
